@@ -147,6 +147,13 @@ pub struct ExecOpts {
     pub passive_cats: Vec<(&'static str, String)>,
     /// after a Tick make every worker run through its event loop once (the io time-outs are fired there)
     pub kick_workers: Vec<usize>,
+    /// let a coroutine actor run on while the kernel side of its previous yield is still at work (real
+    /// concurrency: somebody resumed it on another thread); needs a second kernel slot
+    pub no_holdback: bool,
+    /// the kernel side of a yield refers to memory owned by the coroutine (its socket): if the coroutine has
+    /// finished while that kernel side is still at a point, letting it go on is a use after free - report it
+    /// instead of crashing
+    pub kernel_must_not_outlive: bool,
 }
 
 /// `actor` is not offered for its `nth` pass of `site` until `until_actor` has passed `until_site`
@@ -188,6 +195,8 @@ impl Default for ExecOpts {
             holds: vec![],
             passive_cats: vec![],
             kick_workers: vec![],
+            no_holdback: false,
+            kernel_must_not_outlive: false,
         }
     }
 }
@@ -283,7 +292,17 @@ pub fn execute(
     let mut spin_rounds = 0usize;
     let mut idle_loops = 0usize;
     let end;
+    // MV_SCHED_LOG: the schedule so far is kept in a file, so that the steps that led to a crash of the
+    // scenario process are known
+    let sched_log = std::env::var("MV_SCHED_LOG").ok();
+    let mut logged = 0usize;
     loop {
+        if let Some(p) = &sched_log {
+            if schedule.len() != logged {
+                logged = schedule.len();
+                let _ = std::fs::write(p, schedule_json(&schedule).to_string());
+            }
+        }
         let st = match ctl.settle(20) {
             Ok(s) => s,
             Err(e) => {
@@ -291,6 +310,13 @@ pub fn execute(
                 break;
             }
         };
+        if opts.kernel_must_not_outlive {
+            if let Some(why) = ctl.kernel_outlives() {
+                *crate::run::RUNTIME_PANIC.lock().unwrap_or_else(|p| p.into_inner()) = Some(why);
+                end = End::Aborted;
+                break;
+            }
+        }
         if ctl.aborted() {
             end = End::Aborted;
             break;
@@ -313,7 +339,9 @@ pub fn execute(
         // a coroutine actor is not offered while the kernel side of its previous yield is still at work
         // (it may well have been resumed meanwhile: it then waits at its point): one activation at a time
         let before = ready.len();
-        ready.retain(|(i, _)| !ctl.kernel_busy_of(*i));
+        if !opts.no_holdback {
+            ready.retain(|(i, _)| !ctl.kernel_busy_of(*i));
+        }
         let held_back = before != ready.len();
         if ready.is_empty() && !ready_all.is_empty() && !held_back {
             spin_rounds += 1;
